@@ -28,7 +28,71 @@ fn form(idx: usize, width: usize) -> (String, String, usize) {
     }
 }
 
+/// *Flat* documents (word = [FLAT + kind], depth 1, width = n): everything else that can be
+/// repeated n times without nesting - whitespace runs at every kind of boundary, string bodies
+/// of several kinds, digit runs in the three parts of a number, a key, items and members. A
+/// parser that handles any of these repetitions by recursion (one frame per character, digit,
+/// item or member) passes every ordinary test and overflows a small stack here.
+pub const FLAT: usize = 100;
+pub const FLAT_KINDS: usize = 17;
+
+fn flat_name(kind: usize, n: usize) -> String {
+    let what = [
+        "n spaces before the value",
+        "n line feeds after the value",
+        "n tabs / carriage returns around an array item",
+        "n spaces around a member value",
+        "a string of n ASCII characters",
+        "a string of n two-character escapes",
+        "a string of n two-byte characters",
+        "a string of n/2 escaped surrogate pairs",
+        "an integer of n digits",
+        "a fraction of n digits",
+        "an exponent of n digits",
+        "a key of n characters",
+        "an array of n numbers",
+        "an object of n members with the same key",
+        "an array of n empty arrays",
+        "an array of n strings",
+        "an array of n numbers with a space around every comma",
+    ][kind];
+    format!("{what} (n = {n})")
+}
+
+/// (text, fragments, span of the root)
+fn flat_build(kind: usize, n: usize) -> (String, usize, (usize, usize)) {
+    let rep = |s: &str, k: usize| s.repeat(k);
+    let (text, frags) = match kind {
+        0 => (format!("{}0", rep(" ", n)), 1),
+        1 => (format!("0{}", rep("\n", n)), 1),
+        2 => (format!("[{}0{}]", rep("\t", n), rep("\r", n)), 2),
+        3 => (format!("{{\"k\":{}0{}}}", rep(" ", n), rep(" ", n)), 4),
+        4 => (format!("\"{}\"", rep("a", n)), 1),
+        5 => (format!("\"{}\"", rep("\\n", n)), 1),
+        6 => (format!("\"{}\"", rep("\u{e9}", n)), 1),
+        7 => (format!("\"{}\"", rep("\\ud83d\\ude00", n / 2)), 1),
+        8 => (rep("1", n), 1),
+        9 => (format!("0.{}", rep("1", n)), 1),
+        10 => (format!("1e{}1", rep("0", n)), 1),
+        11 => (format!("{{\"{}\":0}}", rep("k", n)), 4),
+        12 => (format!("[{}0]", rep("0,", n - 1)), 1 + n),
+        13 => (format!("{{{}\"k\":0}}", rep("\"k\":0,", n - 1)), 1 + 3 * n),
+        14 => (format!("[{}[]]", rep("[],", n - 1)), 1 + n),
+        15 => (format!("[{}\"s\"]", rep("\"s\",", n - 1)), 1 + n),
+        _ => (format!("[{}0]", rep("0 , ", n - 1)), 1 + n),
+    };
+    let root = match kind {
+        0 => (n, n + 1),
+        1 => (0, 1),
+        _ => (0, text.len()),
+    };
+    (text, frags, root)
+}
+
 fn form_name(idx: usize, width: usize) -> String {
+    if idx >= FLAT {
+        return flat_name(idx - FLAT, width);
+    }
     match idx {
         0..=3 => FORMS[idx].0.to_string(),
         4 => format!("[0,*{width} then the nested value"),
@@ -152,6 +216,22 @@ fn cases(tier: Tier) -> Vec<Case> {
                     }
                 }
             }
+            // flat documents: every other repetition, in the same small stack
+            for kind in 0..FLAT_KINDS {
+                for ending in [0u8, 3] {
+                    for entry in 0..3u8 {
+                        v.push(Case {
+                            word: vec![FLAT + kind],
+                            ending,
+                            rec: (false, false),
+                            entry,
+                            depth: 1,
+                            stack_kib: 64,
+                            width: if kind >= 12 { 200_003 } else { 1_000_003 },
+                        });
+                    }
+                }
+            }
             // wide containers: widths on both sides of 32 and 256
             for w in wide_words() {
                 for width in [33, 257] {
@@ -226,6 +306,25 @@ fn cases(tier: Tier) -> Vec<Case> {
                     });
                 }
             }
+            for kind in 0..FLAT_KINDS {
+                for ending in [0u8, 3] {
+                    for entry in 0..3u8 {
+                        for rec in [(false, false), (true, true)] {
+                            for n in [65_537usize, 1_000_003, 4_000_001] {
+                                v.push(Case {
+                                    word: vec![FLAT + kind],
+                                    ending,
+                                    rec,
+                                    entry,
+                                    depth: 1,
+                                    stack_kib: 64,
+                                    width: if kind >= 12 { n / 4 } else { n },
+                                });
+                            }
+                        }
+                    }
+                }
+            }
             for w in wide_words() {
                 for width in [5, 9, 17, 33, 65, 129, 257, 1025] {
                     for ending in 0..7 {
@@ -252,6 +351,17 @@ fn cases(tier: Tier) -> Vec<Case> {
 
 /// Builds the document and the expected number of fragments (closed ending).
 fn build(c: &Case) -> (String, usize, Option<(usize, Option<char>)>) {
+    if c.word[0] >= FLAT {
+        let (mut s, frags, _) = flat_build(c.word[0] - FLAT, c.width);
+        return match c.ending {
+            0 => (s, frags, None),
+            _ => {
+                let at = s.len();
+                s.push('x');
+                (s, frags, Some((at, Some('x'))))
+            }
+        };
+    }
     let mut s = String::new();
     let mut closers: Vec<&str> = Vec::new();
     let mut frags = 0;
@@ -344,6 +454,7 @@ fn run_case_in_thread(c: &Case) -> Result<(), String> {
         return run_source_failure_case(c);
     }
     let (doc, frags, err) = build(c);
+    let want_root = if c.word[0] >= FLAT { flat_build(c.word[0] - FLAT, c.width).2 } else { (0, doc.len()) };
     let o = Options {
         accept_truncated_surrogate_pair: c.rec.0,
         accept_invalid_codepoints: c.rec.1,
@@ -365,8 +476,8 @@ fn run_case_in_thread(c: &Case) -> Result<(), String> {
                     if n != frags {
                         return Err(format!("traverse() yields {n} fragments, the document has {frags}"));
                     }
-                    if maplen != frags || root != Some((0, doc.len(), frags)) {
-                        return Err(format!("code map: len {maplen}, root {root:?}; expected len {frags}, root (0,{},{frags})", doc.len()));
+                    if maplen != frags || root != Some((want_root.0, want_root.1, frags)) {
+                        return Err(format!("code map: len {maplen}, root {root:?}; expected len {frags}, root ({},{},{frags})", want_root.0, want_root.1));
                     }
                     if vol == 0 {
                         return Err("volume() is 0".into());
@@ -567,7 +678,11 @@ fn run_range(tier: Tier, start: usize, end: usize, cs: &[Case], t: &mut Tally) {
             }
             t.violation(
                 "",
-                format!("parsing/traversing a document nested {} deep in a {} KiB stack killed the process ({status})", cs[i].depth, cs[i].stack_kib),
+                if cs[i].word[0] >= FLAT {
+                    format!("parsing/traversing a flat document - {} - in a {} KiB stack killed the process ({status})", form_name(cs[i].word[0], cs[i].width), cs[i].stack_kib)
+                } else {
+                    format!("parsing/traversing a document nested {} deep in a {} KiB stack killed the process ({status})", cs[i].depth, cs[i].stack_kib)
+                },
                 case_json(i, &cs[i], tier),
             );
             next = i + 1;
